@@ -545,7 +545,33 @@ def zeroAnswer (ws : List String) : String :=
       else "ok arm=" ++ arm
     | _, _, _, _ => "bad-case"
 
+/-- texts of `envk` lines are decimal code points joined by `.` (`-` = empty) -/
+def unesc (t : String) : String :=
+  if t == "-" then "" else String.mk (((t.splitOn ".").filterMap String.toNat?).map Char.ofNat)
+
+/-- case kind `envk`: `envk <sec> <path> kind=<k> text=<codepoints> => res= kept= got=<codepoints | ?>` -/
+def envkAnswer (ws : List String) : String :=
+  match splitArrow ws with
+  | none => "bad-case"
+  | some (pre, post) =>
+    match pre, kvOf pre "kind", kvOf pre "text", kvOf post "res", kvOf post "kept", kvOf post "got" with
+    | _sec :: _path :: _, some k, some t, some res, some kept, some got =>
+      let kind := EnvK.parseKind k
+      let text := (unesc t).toList
+      let pred := EnvK.envDecode kind text
+      let predTag := match pred with | .ok _ => "ok" | .refuse => "refuse" | .undecided => "undecided"
+      let arm := "envk-" ++ k ++ "-" ++ predTag ++ "-" ++ res
+      let failed := (Util.envkClauses pred res (kept == "1")).filter (fun c => !c.2)
+      if !failed.isEmpty then "propfail " ++ ",".intercalate (failed.map (·.1)) ++ " arm=" ++ arm
+      else if kind == .other then "diff arm=" ++ arm ++ " model=kind-other"
+      else match pred with
+        | .ok v => if res == "ok" && got != "?" && unesc got != v.show then "diff arm=" ++ arm ++ " model=got:" ++ v.show
+                   else "ok arm=" ++ arm
+        | _ => "ok arm=" ++ arm
+    | _, _, _, _, _, _ => "bad-case"
+
 def answer (ws : List String) : String :=
+  if ws.head? == some "envk" then envkAnswer (ws.drop 1) else
   if ws.head? == some "zero" then zeroAnswer (ws.drop 1) else
   if ws.head? == some "ident" then Ident.answer (ws.drop 1) else
   if ws.head? == some "disp" then Disp.answer (ws.drop 1) else
